@@ -13,11 +13,13 @@ import (
 // findings that are not already-known is re-executed twice; only findings that
 // reproduce identically are reported, otherwise the cell is logged as an
 // environment divergence (DESIGN §2.5).
-func (e *Env) Explore(cells []*scen.Cell, judge func(o *scen.Outcome) []report.Finding) {
+func (e *Env) Explore(cells []*scen.Cell, judge func(o *scen.Outcome, t *report.Tally) []report.Finding) {
 	e.Rep.AddStates(len(cells))
 	e.WS.Explore(cells, e.Workers, func(o *scen.Outcome) {
 		e.Rep.AddTransitions(1)
-		fs := judge(o)
+		t := &report.Tally{}
+		fs := judge(o, t)
+		e.Rep.Commit(t)
 		if len(fs) == 0 {
 			return
 		}
@@ -33,7 +35,7 @@ func (e *Env) Explore(cells []*scen.Cell, judge func(o *scen.Outcome) []report.F
 				_ = os.RemoveAll(o.Dir)
 				o2 := e.WS.RunCell(o.Cell)
 				e.Rep.AddTransitions(1)
-				if keysOf(judge(o2)) != want {
+				if keysOf(judge(o2, &report.Tally{})) != want {
 					e.Rep.Diverged(o.Cell.ID)
 					return
 				}
